@@ -251,7 +251,61 @@ func dnsTextSeed(c *core.Ctx) *tlbref.B {
 }
 
 // dns_text#1eda _:Text = DNSRecord
+// dns_next_resolver#ba93 resolver:MsgAddressInt = DNSRecord;
+// dns_adnl_address#ad01 adnl_addr:bits256 flags:(## 8) { flags <= 1 } proto_list:flags . 0?ProtoList = DNSRecord;
+// dns_smc_address#9fd3 smc_addr:MsgAddressInt flags:(## 8) { flags <= 1 } cap_list:flags . 0?SmcCapList = DNSRecord;
+// dns_storage_address#7473 bag_id:bits256 = DNSRecord;
+// proto_list_nil$0 = ProtoList; proto_list_next$1 head:Protocol tail:ProtoList = ProtoList; proto_http#4854 = Protocol;
+// cap_list_nil$0 = SmcCapList; cap_list_next$1 head:SmcCapability tail:SmcCapList = SmcCapList;
+// cap_method_seqno#5371 cap_method_pubkey#71f4 cap_is_wallet#2177 cap_name#ff name:Text = SmcCapability;
 func dnsRecordSeed(c *core.Ctx) *ref.RCell {
+	addr := func() *tlbref.B { // addr_std$10 anycast:(Maybe Anycast) workchain_id:int8 address:bits256
+		return b().U(2, 2).Bit(false).I(int64(int8(c.U64("dns.wc"))), 8).Bytes(c.Content("dns.addr", 32))
+	}
+	switch c.Weighted("dns.kind", 2, 1, 2, 3, 1) {
+	case 1:
+		return b().U(0xba93, 16).Slice(addr().Cell()).Cell()
+	case 2:
+		x := b().U(0xad01, 16).Bytes(c.Content("dns.adnl", 32))
+		if n := c.Range("dns.protos", -1, 3); n >= 0 {
+			x.U(1, 8)
+			for i := 0; i < n; i++ {
+				x.Bit(true).U(0x4854, 16)
+			}
+			x.Bit(false)
+		} else {
+			x.U(0, 8)
+		}
+		return x.Cell()
+	case 3:
+		x := b().U(0x9fd3, 16).Slice(addr().Cell())
+		n := c.Range("dns.caps", -1, 4)
+		if n < 0 {
+			return x.U(0, 8).Cell()
+		}
+		x.U(1, 8)
+		for i := 0; i < n; i++ {
+			x.Bit(true)
+			switch c.Choose("dns.cap", 4) {
+			case 0:
+				x.U(0x5371, 16)
+			case 1:
+				x.U(0x71f4, 16)
+			case 2:
+				x.U(0x2177, 16)
+			case 3:
+				t := dnsTextSeed(c)
+				if len(x.Bits)+8+len(t.Bits)+1 > 1000 || len(x.Refs)+len(t.Refs) > 4 {
+					x.U(0x2177, 16)
+				} else {
+					x.U(0xff, 8).Slice(t.Cell())
+				}
+			}
+		}
+		return x.Bit(false).Cell()
+	case 4:
+		return b().U(0x7473, 16).Bytes(c.Content("dns.bag", 32)).Cell()
+	}
 	return b().U(0x1eda, 16).Slice(dnsTextSeed(c).Cell()).Cell()
 }
 
